@@ -1,10 +1,13 @@
 -------------------------------- MODULE C16MC --------------------------------
 (***************************************************************************)
 (* Design-level check of LineTab (P-E): TLC builds every table of up to    *)
-(* MaxRows rows whose successive deltas are drawn from the sets DPc, DLine *)
-(* and DCol (chosen so that every delta undershoots, equals and exceeds    *)
+(* MaxRows rows whose successive deltas are drawn from the sets DPc1,      *)
+(* DLine1, DCol1 (first row; the encoding of a row depends only on its     *)
+(* delta to the previous row, so one row covers the encoder exhaustively)  *)
+(* and DPc2, DLine2, DCol2 (later rows: accumulation and lookup).  The     *)
+(* sets are chosen so that every delta undershoots, equals and exceeds     *)
 (* each saturation bound, in both signs, including exact multiples of the  *)
-(* bounds) and checks on each table:                                       *)
+(* bounds.  Checked on each table:                                         *)
 (*   RoundTrip   Decode(Encode(rows)) = rows                               *)
 (*   WordsFit    every word is a legal PW+LW+CW+1 bit value and survives   *)
 (*               packing                                                   *)
@@ -22,22 +25,29 @@
 (***************************************************************************)
 EXTENDS LineTab, TLC
 
-CONSTANTS MaxRows, DPc, DLine, DCol, Line0, Col0, Greedy
+CONSTANTS MaxRows, DPc1, DLine1, DCol1, DPc2, DLine2, DCol2, Line0, Col0, Greedy
 VARIABLES rows, prev
 
 St == Start(Line0, Col0)
 
 \* delta sets for the configurations (a .cfg file cannot contain negative numbers)
 SmallD   == {-9, -8, -7, -5, -4, -3, -1, 0, 1, 2, 3, 4, 6, 7, 9}      \* bounds -4 / 3 and their multiples
-LookupDL == {-5, 0, 4}
+LookupDL == {-5, 4}
 LookupDC == {-4, 3}
-RealDL   == {-100000, -33, -32, -31, -17, -16, -15, -1, 0, 1, 14, 15, 16, 29, 30, 31, 100000}    \* bounds -16 / 15
-RealDC   == {-10000, -65, -64, -63, -33, -32, -31, -1, 0, 1, 30, 31, 32, 61, 62, 63, 10000}      \* bounds -32 / 31
+RealDL2  == {-17, 16}
+RealDC2  == {-33, 32}
+RealDL   == {-1000, -33, -32, -31, -17, -16, -15, -1, 0, 1, 14, 15, 16, 29, 30, 31, 1000}    \* bounds -16 / 15
+RealDC   == {-1000, -65, -64, -63, -33, -32, -31, -1, 0, 1, 30, 31, 32, 61, 62, 63, 1000}    \* bounds -32 / 31
+WideDL   == {-100000, -17, 0, 16, 100000}
+WideDC   == {-10000, -33, 0, 32, 10000}
+WideDL2  == {-17, 100000}
+WideDC2  == {-10000}
 
 Init == rows = <<>> /\ prev = St
 \* positions of instructions are positive; the first row may sit at pc 0, later rows are at larger pcs
 Next == /\ Len(rows) < MaxRows
-        /\ \E dp \in DPc \cup (IF rows = <<>> THEN {0} ELSE {}), dl \in DLine, dc \in DCol :
+        /\ \E dp \in (IF rows = <<>> THEN DPc1 ELSE DPc2), dl \in (IF rows = <<>> THEN DLine1 ELSE DLine2),
+              dc \in (IF rows = <<>> THEN DCol1 ELSE DCol2) :
               /\ prev.line + dl >= 1 /\ prev.col + dc >= 1
               /\ prev' = Row(prev.pc + dp, prev.line + dl, prev.col + dc)
               /\ rows' = Append(rows, prev')
